@@ -8,10 +8,12 @@ package c04
 import (
 	"bytes"
 	"fmt"
+	"os"
 	"testing"
 	"time"
 
 	tcpip "github.com/brewlin/net-protocol/protocol"
+	"github.com/brewlin/net-protocol/protocol/transport/tcp"
 	"github.com/brewlin/net-protocol/stack"
 	"pgregory.net/rapid"
 	"verifharness/codec"
@@ -63,7 +65,17 @@ type offer struct {
 
 var dbg bool
 
+// cookieMode (plan unit with C04_COOKIE=1): every passive open goes through the
+// listener's SYN-cookie path (the endpoint is rebuilt from the final ACK: MSS
+// from the cookie's table, no window scaling).
+func cookieMode() bool { return os.Getenv("C04_COOKIE") == "1" }
+
 func runSend(c SendCase) *evid.Failure {
+	if cookieMode() {
+		tcp.SynRcvdCountThreshold = 0
+		c.Active = false
+		evid.Label("send:cookie-handshake")
+	}
 	env := rawpeer.NewEnv(c.Env)
 	if dbg {
 		env.Stack.AddTCPProbe(func(st stack.TCPEndpointState) {
@@ -218,7 +230,15 @@ func runSend(c SendCase) *evid.Failure {
 			}
 		}
 		if len(k.Payload) > mssLimit {
-			return evid.Failf("send-over-mss", "data segment of %d bytes although the peer announced MSS %d (536 if absent)", len(k.Payload), c.MSS)
+			sig := "send-over-mss"
+			if cookieMode() && c.MSS > 0 && c.MSS < 536 && len(k.Payload) <= 536 {
+				// F25: the SYN cookie carries a 2-bit index into {536, 1300, 1440, 1460};
+				// an announced MSS below 536 comes back as 536
+				sig = "send-over-mss:cookie-sub-536"
+			}
+			if f := evid.Failf(sig, "data segment of %d bytes although the peer announced MSS %d (536 if absent)", len(k.Payload), c.MSS); !evid.KnownSig(f.Sig) {
+				return f
+			}
 		}
 		if m := maxOffer(fr.T); int32(end-m) > 0 {
 			return evid.Failf("send-beyond-window", "data segment covers stream offsets [%d,%d) but the largest right edge the peer has offered so far is %d (ws=%d)\n%s", off, end, m, p.WS, renderOffers(offers, fr.T))
